@@ -9,7 +9,7 @@
 From stdpp Require Import gmap strings.
 From RecordUpdate Require Import RecordSet.
 From Coq Require Import NArith.
-From Verif Require Import Store.Model FSM.Model FSM.NonInterference FSM.IndexOrigin FSM.Proofs.
+From Verif Require Import Store.Model FSM.Model FSM.Sorting FSM.NonInterference FSM.IndexOrigin FSM.Proofs.
 Import RecordSetNotations.
 Local Open Scope N_scope.
 
@@ -49,11 +49,11 @@ Proof. exact run_index_from_log_only. Qed.
 (* ---------- handlers that range over Go maps ---------- *)
 
 (* AssignManualServiceVIPs: whatever orders the two replicas iterate in, they store the same rows and
-   return the same `found` flag and the same SET of services that lost addresses ... *)
+   return the same result, the `UnassignedFrom` list included (sorted since fix 9d6116b; before it the
+   raw list was refuted to be deterministic) ... *)
 Theorem C01_manual_vips_order_invariant : forall e1 e2 e1' e2' idx svc ips s,
   Uniq (vips s) ->
-  (assign_manual e1 e2 idx svc ips s).1 = (assign_manual e1' e2' idx svc ips s).1 /\
-  vres_equiv (assign_manual e1 e2 idx svc ips s).2 (assign_manual e1' e2' idx svc ips s).2.
+  assign_manual e1 e2 idx svc ips s = assign_manual e1' e2' idx svc ips s.
 Proof. exact assign_manual_order. Qed.
 
 (* ... [Uniq] (an address is a manual IP of at most one service) holds initially and is kept by every
@@ -66,17 +66,14 @@ Example C01_manual_vips_unique_initially : Uniq (vips vst0).
 Proof. exact Uniq_empty. Qed.
 
 Theorem C01_manual_vips_runs_agree : forall log1 log2,
-  Forall2 same_cmd log1 log2 -> forall s, Uniq (vips s) ->
-  (vrun log1 s).1 = (vrun log2 s).1 /\ Forall2 ores_equiv (vrun log1 s).2 (vrun log2 s).2.
+  Forall2 same_cmd log1 log2 -> forall s, Uniq (vips s) -> vrun log1 s = vrun log2 s.
 Proof. exact vrun_order. Qed.
 
-(* Full statement "replicas return identical results" is FALSE of the faithful model: the raw
-   `UnassignedFrom` list is the key list of a Go map (maps.SliceOfKeys), so two replicas can return
-   different lists for the same committed command (recorded in known_findings.json). *)
-Theorem C01_raw_result_order_refuted :
-  exists e1 e2 e1' e2' idx svc ips s,
-    Uniq (vips s) /\ (assign_manual e1 e2 idx svc ips s).2 ≠ (assign_manual e1' e2' idx svc ips s).2.
-Proof. exact assign_manual_raw_result_order_refuted. Qed.
+(* the history that used to split the replicas: two services lose an address each *)
+Example C01_raw_result_order_example :
+  (assign_manual env_id env_id 9 "cache" ["240.0.0.1"; "240.0.0.2"] ex_vstate).2 = VRes true ["db"; "web"] /\
+  (assign_manual env_rev env_rev 9 "cache" ["240.0.0.1"; "240.0.0.2"] ex_vstate).2 = VRes true ["db"; "web"].
+Proof. exact assign_manual_example. Qed.
 
 (* writeUsageDeltas (one usage row per key of the delta map) *)
 Theorem C01_usage_deltas_order_invariant : forall idx d1 d2 u,
@@ -97,20 +94,22 @@ Theorem C01_tagged_addresses_order_invariant : forall a1 a2 m,
   Permutation a1 a2 -> NoDup (fst <$> a1) -> merge_tagged a1 m = merge_tagged a2 m.
 Proof. exact merge_tagged_order. Qed.
 
-(* Error results that name "the first" offender met in map order: whether the command is rejected
-   does not depend on the order (so the stored state agrees), the text does (recorded findings). *)
-Theorem C01_error_verdict_order_invariant : forall bad l1 l2,
-  Permutation l1 l2 -> (is_Some (validate_meta bad l1) <-> is_Some (validate_meta bad l2)).
-Proof. exact validate_meta_verdict_order. Qed.
-Theorem C01_error_text_order_refuted :
-  exists bad l1 l2, Permutation l1 l2 /\ validate_meta bad l1 ≠ validate_meta bad l2.
-Proof. exact validate_meta_text_order_refuted. Qed.
+(* Error results built from the keys of a map: the keys are sorted before they are visited (fixes
+   7ea9e44, 281c379), so the pair named by validateMetadata and the lines reported for missing JWT
+   providers are the same on every replica (before the fixes both texts were refuted to be). *)
+Theorem C01_error_text_order_invariant : forall e1 e2 bad meta,
+  validate_meta e1 bad meta = validate_meta e2 bad meta.
+Proof. exact validate_meta_order. Qed.
+Example C01_error_text_order_example :
+  validate_meta env_rev (fun _ => true) (<["bad key!" := "x"]> (<["also bad?" := "y"]> ∅)) = Some ("also bad?", "y") /\
+  validate_meta env_id (fun _ => true) (<["bad key!" := "x"]> (<["also bad?" := "y"]> ∅)) = Some ("also bad?", "y").
+Proof. exact validate_meta_example. Qed.
 Theorem C01_error_lines_order_invariant : forall known r1 r2,
-  Permutation r1 r2 -> Permutation (missing_providers known r1) (missing_providers known r2).
-Proof. exact missing_providers_set_order. Qed.
-Theorem C01_error_lines_order_refuted :
-  exists known r1 r2, Permutation r1 r2 /\ missing_providers known r1 ≠ missing_providers known r2.
-Proof. exact missing_providers_text_order_refuted. Qed.
+  Permutation r1 r2 -> missing_providers known r1 = missing_providers known r2.
+Proof. exact missing_providers_order. Qed.
+Example C01_error_lines_order_example :
+  missing_providers ∅ ["okta"; "auth0"] = ["auth0"; "okta"] /\ missing_providers ∅ ["auth0"; "okta"] = ["auth0"; "okta"].
+Proof. exact missing_providers_example. Qed.
 
 Print Assumptions C01_replicas_agree.
 Print Assumptions C01_local_never_read.
@@ -120,11 +119,9 @@ Print Assumptions C01_index_from_log_only_run.
 Print Assumptions C01_manual_vips_order_invariant.
 Print Assumptions C01_manual_vips_unique_kept.
 Print Assumptions C01_manual_vips_runs_agree.
-Print Assumptions C01_raw_result_order_refuted.
 Print Assumptions C01_usage_deltas_order_invariant.
 Print Assumptions C01_topology_prune_order_invariant.
 Print Assumptions C01_tagged_addresses_order_invariant.
-Print Assumptions C01_error_verdict_order_invariant.
-Print Assumptions C01_error_text_order_refuted.
+Print Assumptions C01_error_text_order_invariant.
 Print Assumptions C01_error_lines_order_invariant.
-Print Assumptions C01_error_lines_order_refuted.
+Print Assumptions C01_raw_result_order_example.
